@@ -134,5 +134,83 @@ theorem laws (f stop : B64) (hf : (1 : B64) ≤ f) (hs : (0 : B64) < stop) (hfin
     Laws f stop :=
   ⟨hs, by decide, fun x _ hxs => infl f hf x (by rw [le_def] at hxs; omega)⟩
 
+/-! ### representable values round to themselves; multiplying by 1.0 is exact -/
+
+/-- `k * 2^q` quanta (`k < 2^53`, normalised: `2^52 ≤ k`, or `q = 0` for a subnormal) given exactly round
+    to the pattern `q * 2^52 + k` -/
+theorem rnd_exact (k q sh : Nat) (hk : k < 2 ^ 53) (hq : (q = 0 ∧ k < 2 ^ 52) ∨ 2 ^ 52 ≤ k)
+    (hlt : q * 2 ^ 52 + k < INF) : rnd (k * 2 ^ (sh + q)) sh = q * 2 ^ 52 + k := by
+  have hpos : 0 < 2 ^ (sh + q) := Nat.pow_pos (by decide)
+  have hq' : (k * 2 ^ (sh + q)).log2 - (sh + 52) = q := by
+    by_cases hk0 : k = 0
+    · subst hk0
+      rcases hq with ⟨h, _⟩ | h
+      · simp [h, Nat.log2_zero]
+      · exact absurd h (by decide)
+    have hN0 : k * 2 ^ (sh + q) ≠ 0 := Nat.mul_ne_zero hk0 (by omega)
+    rcases hq with ⟨h0, hks⟩ | hkn
+    · subst h0
+      have : (k * 2 ^ (sh + 0)).log2 < 52 + sh := by
+        have e : 2 ^ (52 + sh) = 2 ^ 52 * 2 ^ (sh + 0) := by rw [Nat.add_zero, Nat.pow_add]
+        rw [Nat.log2_lt hN0, e]
+        exact Nat.mul_lt_mul_of_pos_right hks hpos
+      omega
+    · have h1 : 2 ^ (52 + (sh + q)) ≤ k * 2 ^ (sh + q) := by
+        rw [Nat.pow_add]; exact Nat.mul_le_mul_right _ hkn
+      have h2 : k * 2 ^ (sh + q) < 2 ^ (52 + (sh + q) + 1) := by
+        have e : 2 ^ (52 + (sh + q) + 1) = 2 ^ 53 * 2 ^ (sh + q) := by
+          rw [show 52 + (sh + q) + 1 = 53 + (sh + q) by omega, Nat.pow_add]
+        rw [e]
+        exact Nat.mul_lt_mul_of_pos_right hk hpos
+      have := (Nat.log2_eq_iff hN0).mpr ⟨h1, h2⟩
+      omega
+  unfold rnd
+  simp only [hq', Nat.mul_div_cancel _ hpos, Nat.mul_mod_left]
+  have hp : 0 < 2 ^ (sh + q - 1) := Nat.pow_pos (by decide)
+  have h1 : ¬ (2 ^ (sh + q - 1) < 0) := Nat.not_lt_zero _
+  have h2 : ((0 : Nat) == 2 ^ (sh + q - 1)) = false := by
+    simp only [beq_eq_false_iff_ne, ne_eq]; omega
+  simp only [h1, h2, decide_false, Bool.false_and, Bool.or_false, Bool.false_eq_true, if_false, Nat.add_zero]
+  exact Nat.min_eq_left (Nat.le_of_lt hlt)
+
+theorem V_one : V ONE = 2 ^ 1074 := by decide +kernel
+
+/-- multiplying a finite double by 1.0 is exact -/
+theorem mul_one (x : B64) (hx : x.bits < INF) : x * 1 = x := by
+  show (if INF ≤ x.bits ∨ INF ≤ ONE then (⟨INF⟩ : B64) else ⟨rnd (V x.bits * V ONE) 1074⟩) = x
+  have h1 : ¬ (INF ≤ x.bits ∨ INF ≤ ONE) := by
+    have : ¬ INF ≤ ONE := by decide
+    omega
+  simp only [h1, if_false]
+  cases x with | mk b =>
+  simp only [B64.mk.injEq]
+  simp only at hx
+  rw [V_one]
+  have hxd := Nat.div_add_mod b (2 ^ 52)
+  have hfr : b % 2 ^ 52 < 2 ^ 52 := Nat.mod_lt _ (by decide)
+  by_cases hE : b / 2 ^ 52 = 0
+  · have hV : V b = b := by unfold V; simp only [hE, if_true]; omega
+    rw [hV]
+    have := rnd_exact b 0 1074 (by omega) (Or.inl ⟨rfl, by omega⟩) (by omega)
+    rw [Nat.add_zero, Nat.zero_mul, Nat.zero_add] at this
+    exact this
+  · have hV : V b = (2 ^ 52 + b % 2 ^ 52) * 2 ^ (b / 2 ^ 52 - 1) := by
+      unfold V; simp only [hE, if_false]
+    rw [hV]
+    clear hV h1
+    generalize b / 2 ^ 52 = E at *
+    generalize b % 2 ^ 52 = fr at *
+    obtain ⟨E', rfl⟩ : ∃ E', E = E' + 1 := ⟨E - 1, by omega⟩
+    simp only [Nat.add_sub_cancel]
+    have hb : E' * 2 ^ 52 + (2 ^ 52 + fr) = b := by
+      rw [Nat.mul_comm, Nat.add_mul, Nat.one_mul] at hxd
+      rw [← hxd, Nat.add_assoc]
+    have := rnd_exact (2 ^ 52 + fr) E' 1074 (by omega) (Or.inr (Nat.le_add_right _ _))
+      (by rw [hb]; exact hx)
+    rw [hb] at this
+    have e : (2 ^ 52 + fr) * 2 ^ E' * 2 ^ 1074 = (2 ^ 52 + fr) * 2 ^ (1074 + E') := by
+      rw [Nat.mul_assoc, ← Nat.pow_add, Nat.add_comm E' 1074]
+    rw [e]; exact this
+
 end B64
 end C15
